@@ -25,12 +25,14 @@ AccOK(rec) ==
            /\ a.Maintainers = <<Val(rec, "Maintainer")>> \o Val(rec, "Uploaders")
            /\ a.HasArchAll = (\E i \in 1..Len(Val(rec, "Architectures")) : Val(rec, "Architectures")[i] = <<97, 108, 108>>)
            /\ a.AbsFiles = [i \in 1..Len(Val(rec, "Files")) |-> <<47, 115, 114, 118, 47, 112, 111, 111, 108, 47>> \o Val(rec, "Files")[i][3]]
+           /\ a.AbsFilesViaFile = a.AbsFiles                  \* the *File parser, given a relative path: absolute all the same
            /\ LET fs == Val(rec, "Files")
                   hits == {i \in 1..Len(fs) : ContainsSeq(fs[i][3], <<46, 100, 101, 98, 105, 97, 110, 46>>)}
               IN IF hits = {} THEN ~a.DebianSource.ok
                  ELSE a.DebianSource.ok /\ a.DebianSource.v = fs[CHOOSE i \in hits : \A j \in hits : i <= j][3]
       [] k = "changes" ->
-           a.AbsFiles = [i \in 1..Len(Val(rec, "Files")) |-> <<47, 115, 114, 118, 47, 112, 111, 111, 108, 47>> \o Val(rec, "Files")[i][5]]
+           /\ a.AbsFiles = [i \in 1..Len(Val(rec, "Files")) |-> <<47, 115, 114, 118, 47, 112, 111, 111, 108, 47>> \o Val(rec, "Files")[i][5]]
+           /\ a.AbsFilesViaFile = a.AbsFiles
       [] k = "srcpara" -> a.Maintainers = <<Val(rec, "Maintainer")>> \o Val(rec, "Uploaders")
       [] k = "best" ->
            \* the preferred list: SHA-256 when the document has one, else SHA-512, else nothing
